@@ -16,8 +16,11 @@ import rsx  # noqa: E402
 
 REPO = os.environ.get('VERIF_REPO', '/repo')
 BUILD = os.path.join(VERIF, '.build')
-REPLAYS = os.path.join(VERIF, 'replays')
-EVIDENCE = os.path.join(VERIF, 'evidence')
+# runs against a scratch copy (VERIF_REPO=..., mutation sanity) must never overwrite the evidence / replays
+# of the real tree: they go under .build/scratch instead
+_SCRATCH = os.path.realpath(REPO) != '/repo'
+REPLAYS = os.path.join(BUILD, 'scratch', 'replays') if _SCRATCH else os.path.join(VERIF, 'replays')
+EVIDENCE = os.path.join(BUILD, 'scratch', 'evidence') if _SCRATCH else os.path.join(VERIF, 'evidence')
 CONTRACTS = os.path.join(VERIF, 'contracts')
 KANI_DIR = os.path.join(VERIF, 'kani')
 
